@@ -70,6 +70,26 @@ def gen_ops(rng, layout, n):
         vn, kind = rng.choice(KINDS)
         r = rng.random()
         t = {'lev': lev, 'vn': vn, 'kind': kind}
+        if layout['complex'] and rng.random() < 0.06:
+            # complex-step cycle motif on one nonlinear vector: enter, write complex data, leave, operate on the
+            # real view (what happens to the hidden imaginary parts?), enter again
+            kd = rng.choice([k_ for k_ in KINDS if k_[0] == 'nonlinear'])[1]
+            tt = {'lev': lev, 'vn': 'nonlinear', 'kind': kd}
+
+            def one(opd):
+                opd['seed'] = rng.randint(0, 2 ** 31 - 1)
+                ops.append(opd)
+            one(dict(tt, op='complex_mode', on=True))
+            one(dict(tt, op='set_val', val='array', idx=None))
+            one(dict(tt, op='complex_mode', on=False))
+            for _k in range(rng.randint(1, 2)):
+                if rng.random() < 0.6:
+                    one(dict(tt, op='set_val', val=rng.choice(['scalar', 'array']), idx=rng.choice([None, 'slice', 'ints'])))
+                else:
+                    one(dict(tt, op=rng.choice(['iadd', 'imul']), val=rng.choice(['scalar', 'array']),
+                             idx=rng.choice([None, 'slice', 'ints'])))
+            one(dict(tt, op='complex_mode', on=True))
+            continue
         if r < 0.12:
             op = dict(t, op='set_val', val=rng.choice(['scalar', 'array']), idx=rng.choice([None, None, 'slice', 'ints']))
         elif r < 0.30:
@@ -121,8 +141,9 @@ class C33(Check):
                    "8 ulp of |x|+|adder| (and bitwise when the scaling is the identity)",
                    "scaled values are predicted from ref/ref0/res_ref (inputs: their source's ref/ref0 composed with the unit "
                    "conversion of the connection)",
-                   "imaginary parts are compared only while a vector is in complex-step mode and are re-read at every "
-                   "switch into complex mode (what real-mode operations do to hidden imaginary parts is not specified)",
+                   "imaginary parts are compared while a vector is in complex-step mode and at every switch into it: "
+                   "real-mode operations on the visible data leave hidden imaginary parts alone, whole-cell writes "
+                   "(set_val, set_vec, named assignment) reset them",
                    "dot and get_norm are judged in real mode"]
     real = ['DefaultVector / Vector (root and subsystem instances of a real Problem)', 'System._setup_vectors / _setup_scaling']
     stubs = ['no-op stub components providing the variable layout']
@@ -593,8 +614,15 @@ class C33(Check):
                         vv = vec(lv, vn, kind)
                         vv.set_complex_step_mode(on)
                     if on and not cmode[key]:
-                        # hidden imaginary parts are unspecified in real mode: re-read them at the switch
-                        R.imag[:] = root._data.imag
+                        # what real-mode operations do to the hidden imaginary parts follows from the same NumPy
+                        # semantics: operations on the (real) visible data leave them alone, whole-cell writes
+                        # (set_val / set_vec / named assignment) reset them -- so they are compared, not re-read
+                        if not np.array_equal(R.imag, root._data.imag):
+                            jj = int(np.nanargmax(np.abs(R.imag - root._data.imag)))
+                            viol.append({'inv': 'I-33-hidden-imag', 'msg': f"{where}: switching complex-step mode on "
+                                         f"exposes imaginary part {root._data.imag[jj]!r} at flat entry {jj}, the "
+                                         f"operation history gives {R.imag[jj]!r}", 'ctx': f'{vn}-{kind}'})
+                            break
                     cmode[key] = on
                     stale = {kk: vv for kk, vv in stale.items() if kk[1:3] != key}
                     faults.inc('complex_mode_switch')
